@@ -232,6 +232,56 @@ def check(ctx):
                               expected={"ffis_reachable": sorted(ffis), "requires": spec_requires(sc["imports"]), "out_path": want_path},
                               observed=dict(observed, problem=problem))
             shutil.rmtree(root, ignore_errors=True)
+        # ---- packages translated together, and degenerate packages: the header of each must be what it is alone
+        co = {
+            "a/same": {"f.go": "package same\n\nimport \"github.com/goose-lang/goose/machine/disk\"\n\nfunc UseDisk() uint64 {\n\treturn disk.Size()\n}\n"},
+            "b/same": {"f.go": "package same\n\nfunc Plain() uint64 {\n\treturn 1\n}\n"},
+            "c/viaa": {"f.go": "package viaa\n\nimport \"example.com/m/a/same\"\n\nfunc Via() uint64 {\n\treturn same.UseDisk()\n}\n"},
+            "d/empty": {"f.go": "package empty\n"},
+            "e/dup": {"f.go": "package dup\n\nfunc F() uint64 {\n\treturn 1\n}\n\nfunc _() {\n}\n\nfunc _() {\n}\n"},
+            "f/trust": {"f.go": "package trust\n\nimport (\n\t\"example.com/m/trusted_x\"\n\t\"example.com/m/b/same\"\n)\n\nfunc T() uint64 {\n\treturn trusted_x.F() + same.Plain()\n}\n",
+                        "g.go": "package trust\n\nimport \"example.com/m/b/same\"\n\nfunc T2() uint64 {\n\treturn same.Plain()\n}\n"},
+            "trusted_x": {"f.go": "package trusted_x\n\nfunc F() uint64 {\n\treturn 2\n}\n"},
+        }
+        expect_ffi = {"a/same": "disk", "b/same": "none", "c/viaa": "disk", "d/empty": "none", "e/dup": "none", "f/trust": "none", "trusted_x": "none"}
+        root = os.path.join(scratch, "co")
+        alone = {}
+        for d in co:
+            gomod.write_module(root, co)
+            gomod.run_goose(root, [], ["./" + d])
+            t = gomod.tree(os.path.join(root, "Goose"))
+            alone[d] = t.get(spec_outpath("example.com/m/" + d), (None,))[0]
+        for patterns in (["./..."], ["./" + d for d in sorted(co, reverse=True)], ["./b/same", "./a/same"], ["./a/same", "./b/same"]):
+            gomod.write_module(root, co)
+            rc, out, err = gomod.run_goose(root, [], patterns)
+            t = gomod.tree(os.path.join(root, "Goose"))
+            stats["co_translation_runs"] += 1
+            for d in co:
+                if "./..." not in patterns and "./" + d not in patterns:
+                    continue
+                got = t.get(spec_outpath("example.com/m/" + d), (None,))[0]
+                if got != alone[d] and not found:
+                    found = True
+                    ctx.violation("counterexample", "the file written for a package depends on which packages are translated in the same invocation",
+                                  {"proto": "cli-co", "packages": co, "patterns": patterns, "package": d},
+                                  expected=(alone[d] or b"").decode()[:1200], observed=(got or b"<no file>").decode()[:1200])
+        for d, ffi in expect_ffi.items():
+            txt = (alone[d] or b"").decode()
+            stats["degenerate_packages"] += 1
+            generic = "Section code.\nContext `{ext_ty: ext_types}.\nLocal Coercion Var' s: expr := Var s." in txt and txt.rstrip().endswith("End code.")
+            prelude = ("ffi.%s_prelude." % ffi) in txt and "Section code." not in txt and "End code." not in txt
+            if alone[d] is None or not (generic if ffi == "none" else prelude):
+                if not found:
+                    found = True
+                    ctx.violation("counterexample", "header / footer of a package do not match the FFI it reaches",
+                                  {"proto": "cli-co", "packages": {d: co[d]}, "package": d}, expected={"ffi": ffi, "generic_section_with_footer": ffi == "none"},
+                                  observed=txt[:1500] or "<no file>")
+        treq = [l for l in (alone["f/trust"] or b"").decode().split("\n") if "Require" in l and "prelude" not in l]
+        want_req = ["From Goose Require example_com.m.b.same.", "From Perennial.goose_lang.trusted Require Import example_com.m.trusted_x."]
+        if treq != want_req and not found:
+            found = True
+            ctx.violation("counterexample", "Require lines: an ordinary package next to a trusted_ one in one import group",
+                          {"proto": "cli-co", "packages": {"f/trust": co["f/trust"]}}, expected=want_req, observed=treq)
     finally:
         shutil.rmtree(scratch, ignore_errors=True)
     C.report_broken_obligations(ctx, build, found)
